@@ -284,3 +284,14 @@ package sparseindex
 //@     frame nothing
 //@   loop 1
 //@     invariant start == (rangeindex + 1) * segBfSize
+
+// ---- bloom-filter skip index reader. The reader opens the filter file of ONE column (the first of its schema) and
+// tells the filter evaluation which columns it can answer for through the split map: a column that is in the map is
+// looked up in the opened filter, a column that is not is treated as "may match". So the map may only name the column
+// whose file is opened - another column's tokens looked up in this file come back "absent" and the block, which may
+// hold a match, is skipped.
+//@ prop C20
+//@ func (*BloomFilterIndexReader).ReInit
+//@   requires r != nil
+//@   store map[string][]byte
+//@     requires [split_map_names_only_the_opened_column] key == r.schema[0].Name
